@@ -200,7 +200,7 @@ func (o *Op) js() string {
 	case "isarr":
 		return "return Array.isArray(a)"
 	case "iternew":
-		return "it=a." + o.M + "();return 0"
+		return "it=AP." + o.M + ".call(a);return 0"
 	case "iternext":
 		return "var r=it.next();return [r.value,r.done]"
 	case "spread":
